@@ -23,6 +23,7 @@ class Stepper:
         self.resolve = resolve or (lambda e: e)
         self.simplify = simplify  # applied to every (substituted) condition before it is evaluated
         self.on_loop: Optional[Callable[[ast.stmt, Dict[str, ast.AST]], None]] = None  # abstract effect of a loop statement
+        self.opaque: set = set()  # names of mutable accumulators: never substituted, their assignments are effects
 
     def atom(self, text: str, pol: bool = True) -> bool:
         if text not in self.assign:
@@ -67,7 +68,9 @@ class Stepper:
                     raise Unsupported(f"multiple assignment targets at line {s.lineno}")
                 if s.value is None:
                     continue
-                if isinstance(tg, ast.Name):
+                if isinstance(tg, ast.Name) and tg.id in self.opaque:
+                    self.effects.append(f"{tg.id} = {norm(subst(s.value, env))}")
+                elif isinstance(tg, ast.Name):
                     env[tg.id] = subst(s.value, env)
                 else:
                     self.effects.append(norm(subst(s, env)))
